@@ -186,6 +186,7 @@ def flags(repo: Repo) -> List[Ob]:
         props = ("C05", "C04") if fi.node.name == "measure" else ("C09",)
         if fi.node.name == "measure":
             props = ("C05",)
+        base_props = props
         typer = Typer(repo, fi)
         cfg = CFG(fi.node)
         is_state_cls = fi.cls.name in ("Fock", "Polarization", "CustomState", "BaseState")
@@ -233,6 +234,7 @@ def flags(repo: Repo) -> List[Ob]:
                         continue
                     shared_sites += 1
                     key = f"flag={flag}->{cname}#{ordinal[cname]}"
+                    props = base_props + (("C20",) if flag == "separate_measurement" else ())   # a lost separate_measurement drags the partner (another block) in
                     passed = None
                     for kw in x.keywords:
                         if kw.arg == flag:
